@@ -94,6 +94,9 @@ func (obj *DeltaDistribution) ImportConfig(config ConfigDistribution, t ScalarTy
   if parameters, ok := config.GetParametersAsFloats(); !ok {
     return fmt.Errorf("invalid config file")
   } else {
+    if len(parameters) != 1 {
+      return fmt.Errorf("invalid config file")
+    }
     x := NewScalar(t, parameters[0])
 
     if tmp, err := NewDeltaDistribution(x); err != nil {
